@@ -249,6 +249,24 @@ func main() {
 		fmt.Fprintf(&o, "  (%s, [%s])%s\n", coqStr(h.name), strings.Join(fs, "; "), sep)
 	}
 	o.WriteString("]%string.\n")
+	o.WriteString("(* dynamic-voter handlers: what the methods that give gov the quorum / voting period / enactment delay return *)\n")
+	o.WriteString("Definition dynamic_param_sources : list (string * list string) := [\n")
+	first := true
+	for _, h := range shapes {
+		if len(h.dyn) == 0 {
+			continue
+		}
+		if !first {
+			o.WriteString(";\n")
+		}
+		first = false
+		var fs []string
+		for _, f := range h.dyn {
+			fs = append(fs, coqStr(f))
+		}
+		fmt.Fprintf(&o, "  (%s, [%s])", coqStr(h.name), strings.Join(fs, "; "))
+	}
+	o.WriteString("\n]%string.\n")
 	if err := os.WriteFile(*out, []byte(o.String()), 0o644); err != nil {
 		die("%v", err)
 	}
@@ -259,6 +277,7 @@ func main() {
 type shape struct {
 	name     string
 	findings []string
+	dyn      []string // dynamic-voter handlers: what Quorum / VotePeriod / VoteEnactment return at the end
 }
 
 func parseDir(dir string) []*ast.File {
@@ -456,6 +475,29 @@ func handlerShapes(repo string) []shape {
 			}
 			return true
 		})
+		// dynamic-voter methods: the expression returned last by Quorum / VotePeriod / VoteEnactment
+		for _, mname := range []string{"Quorum", "VotePeriod", "VoteEnactment"} {
+			for _, f := range files {
+				for _, d := range f.Decls {
+					fd, ok := d.(*ast.FuncDecl)
+					if !ok || fd.Name.Name != mname || fd.Recv == nil || len(fd.Recv.List) != 1 || fd.Body == nil || len(fd.Body.List) == 0 {
+						continue
+					}
+					t := fd.Recv.List[0].Type
+					if st, ok := t.(*ast.StarExpr); ok {
+						t = st.X
+					}
+					if src(t) != typ {
+						continue
+					}
+					rs, ok := fd.Body.List[len(fd.Body.List)-1].(*ast.ReturnStmt)
+					if !ok || len(rs.Results) != 1 {
+						die("%s.%s: last statement is not a single return", typ, mname)
+					}
+					sh.dyn = append(sh.dyn, mname+" returns "+src(rs.Results[0]))
+				}
+			}
+		}
 		out = append(out, sh)
 	}
 	return out
